@@ -19,7 +19,21 @@ def suite(cwd):
             continue
         if e.get('Action') == 'pass' and e.get('Test'):
             passed.add('%s::%s' % (e['Package'], e['Test']))
-    return [t for t in BASE if t not in passed]
+    missing = [t for t in BASE if t not in passed]
+    # a test missing from a full (loaded) run gets up to three runs on its own before it counts
+    # (grog/internal/worker TestRunWithConcurrentShutdown times out under load on the untouched tree too)
+    still = []
+    for t in missing:
+        pkg, name = t.split('::', 1)
+        ok = False
+        for _ in range(3):
+            q = sh(['go', 'test', '-vet=off', '-count=1', '-timeout', '10m', '-run', '^' + name.split('/')[0] + '$', pkg], cwd)
+            if q.returncode == 0:
+                ok = True
+                break
+        if not ok:
+            still.append(t)
+    return still
 
 def main():
     subprocess.run(['git', '-C', '/repo', 'worktree', 'remove', '--force', WT], stdout=subprocess.DEVNULL, stderr=subprocess.DEVNULL)
